@@ -340,6 +340,23 @@ func TestScripts(t *testing.T) {
 				pbt.Label("script:adjacent-macro-definitions")
 			}
 		}
+		if rapid.IntRange(0, 2).Draw(rt, "redef") == 0 {
+			// a remembered call, then what it depends on is redefined, then the same call again, anywhere in the script
+			// (in this order): evaluated at once all of it happens inside one input
+			seq := [][]string{
+				{"hh = x => x + 1; ff = x => hh(x) * 2", "println(\"ff\", ff(3))", "hh = x => x + 100", "println(\"ff\", ff(3))"},
+				{"KK = 2; gg = x => x * KK", "println(\"gg\", gg(5))", "del(KK); KK = 3", "println(\"gg\", gg(5))"},
+				{"func h2(x) { x + 1 }; f2 = x => [h2(x)]", "println(f2(1))", "func h2(x) { x - 1 }", "println(f2(1))", "println(f2(1))"},
+			}[rapid.IntRange(0, 2).Draw(rt, "redefkind")]
+			pos := 0
+			for _, st := range seq {
+				pos = rapid.IntRange(pos, len(sc.Stmts)).Draw(rt, "redefpos")
+				sc.Stmts = append(sc.Stmts[:pos], append([]string{st}, sc.Stmts[pos:]...)...)
+				pos++
+			}
+			crossUse = true
+			pbt.Label("script:dependency-redefined-between-equal-calls")
+		}
 		if len(sc.Stmts) < 2 {
 			sc.Stmts = append(sc.Stmts, "println(\"end\")", "zz9 = 1")
 		}
